@@ -45,8 +45,8 @@ ASSUMPTIONS = ["geometry matrices are float64 ndarrays with non-negative entries
                "initial guesses are None, Python float/int or float64 arrays; max_iterations >= 1; 0 < relaxation < 2",
                "for zero-length rays / unseen cells the docstring formula is read as 'no contribution'",
                "a minimiser is certified to relative gradient accuracy 1e-8 (scale |C|^2|x| + |C||d|)"]
-QUICK = dict(cases=700, workers=2, timecap=45)
-THOROUGH = dict(cases=70000, workers=16, timecap=600)
+QUICK = dict(cases=3000, workers=2, timecap=40)
+THOROUGH = dict(cases=150000, workers=16, timecap=600)
 REQUIRED = {"sart_iterate": 1000, "csart_iterate": 800, "sart_conv": 500, "csart_conv": 500, "sart_stop": 50,
             "csart_stop": 50, "sart_nonneg": 80, "csart_nonneg": 80, "fixed_point": 100, "nnls_kkt": 50,
             "nnls_rnorm": 50, "lstsq_normal": 30, "lstsq_residual": 10, "svd_normal": 20, "svd_min_norm": 10,
@@ -309,19 +309,25 @@ def _run_sart(case, ctx, W, b, xt):
             ctx.mon("fixed_point", n - 1)
             return
         # the stopping measure is 0/0 for b = 0 (statement silent): the result must be *some* iterate of the rule
-        best = None
+        best, unjudged, matched = None, 0, False
         for k in (range(K) if K > 1 else [0]):
             t = tol_at(k)
-            if not np.all(np.isfinite(t)) or not np.all(np.isfinite(out["iterates"][k])) or t.max() > AMPLIFY_LIMIT * scale:
+            it = out["iterates"][k]
+            if not np.all(np.isfinite(t)) or not np.all(np.isfinite(it)):
+                unjudged += 1
                 continue
             with np.errstate(all="ignore"):
-                r = float(np.max(np.nan_to_num(np.abs(sol - out["iterates"][k]) / t, nan=np.inf)))
+                r = float(np.max(np.nan_to_num(np.abs(sol - it) / t, nan=np.inf)))
+            if t.max() > AMPLIFY_LIMIT * scale:      # amplified: a match counts, a mismatch proves nothing
+                unjudged += 1
+                matched = matched or r <= 1.0
+                continue
             best = r if best is None else min(best, r)
-        if best is not None:
+        if matched or (best is not None and best <= 1.0) or (best is not None and unjudged == 0):
             ctx.mon("zero_b_iterate")
-            if np.isfinite(best):
+            if best is not None and np.isfinite(best) and best <= 1.0:
                 ctx.margin("zero_b_iterate", best)
-            if best > 1.0:
+            if not matched and best > 1.0:
                 ctx.viol("%s:zero-measurement-iterate" % fn,
                          "b = 0: returned solution is none of the iterates x^(1..max_iterations) of the documented rule", ratio=best)
         else:
